@@ -274,11 +274,16 @@ def plan_schedules(tier):
         plan.append((a, b, 'line' if (not q or i in (0, 2, 4)) else 'call', 1))
     for (a, b) in PAIRS_SAVE:
         heavy = (a, b) in (('make_1h', 'make_1h_other'), ('iter_verbose_v2_a', 'iter_verbose_v2_b'))
-        if q and heavy:
-            continue            # quick tier: these two are explored at 'shared' granularity only (below); thorough: also at call granularity
+        if q and (a, b) == ('iter_verbose_v2_a', 'iter_verbose_v2_b'):
+            continue            # quick tier: explored at 'shared' / 'sharedw' granularity only (below); thorough: also at call granularity
         plan.append((a, b, 'line' if ((not q and not heavy) or (a, b) in PROLOGUE) else 'call', 1))
     for (a, b, bound) in PAIRS_SHARED:
         plan.append((a, b, 'shared', bound if q else 2))
+    # 'sharedw': the shared-access points plus the six line events that follow each of them in the same frame (an object fetched from
+    # shared state and then used through a local name), same-shape pairs, p = 1
+    for (a, b) in (('make_1h', 'make_1h_other'), ('make_m1_numeric', 'make_m1_other'), ('iter_verbose_v2_a', 'iter_verbose_v2_b'),
+                   ('ppm_small_a', 'ppm_small_b'), ('make_7_version', 'make_8_version')):
+        plan.append((a, b, 'sharedw', 1))
     for (a, b, fname) in PAIRS_FILE:
         plan.append((a, b, 'line@' + fname, 1 if q else 2))
     if not q:
